@@ -6,6 +6,9 @@ from harness.ilv import body_whole, body_whole_geo, body_epoch_step  # noqa: F40
 from harness.c04 import whole_geo_cond, step_cond, geometries, VMAX
 import kappadata.samplers.interleaved_sampler as M
 
+MANIFEST_LEVEL = "Solver-decided equivalence of the real scheduler with the closed-form 'due iff interval reached or crossed' oracle for every non-empty combination of interval kinds on one config, 1-3 configs, per-config batch sizes, zero budget, plus index resolution through _InterleavedConcatDataset with unbounded dataset sizes and collator dispatch. Interval lengths symbolic in whole runs, enumerated in the inductive epoch step."
+MANIFEST_NOTE = 'Trusted: CrossHair/z3, probe samplers/collators, oracle in harness/ilv.py. Outside: worker processes of a real DataLoader, more than 3 configs.'
+MANIFEST_TECHNIQUE = "bounded symbolic execution of the real code (CrossHair on z3): solver verdict over all values within the bounds, per enumerated configuration; counterexamples replayed concretely"
 PROPERTY = "C05"
 ENCODED = ilv.ENCODED
 STUBS = [
